@@ -481,3 +481,41 @@ Example C13_unreported_satisfiable :
                 lookup d 2%N = Some (6#1) /\ lookup d' 2%N = Some (6#1)) /\
   depends_on_volatile (SMapped (SDict [(0%N, 1#1); (1%N, 2#1)] [0%N]) [(2%N, EAdd (EVar 0%N) (EVar 1%N))]) 2%N = true.
 Proof. exact unreported_example. Qed.
+
+(* ================================================================ round 6 *)
+Require Import QV.C13.SpecDenote QV.C13.ProofsR6.
+
+(* THE DENOTED MAPPING IS THE ONE THE STATEMENT DESCRIBES.  `is_mapping_of s f` (SpecDenote.v) says name by name: a plain
+   scope is its dictionary; in a mapped scope every mapping expression has a value in the mapping g of the OUTER scope, a
+   name the mapping defines has the value of its expression in g (all in the same g: simultaneously) and any other name
+   its outer value (the innermost definition wins); a loop index has the index value and shadows; a joint scope takes
+   each name from its sub scope.  The relation mentions neither `eval_all` nor `override` nor `dict_set`.  On scopes with
+   distinct names: the dictionary `denote_scope` computes has the property, every mapping with the property is pointwise
+   that dictionary (so `denote_scope` succeeds whenever such a mapping exists), and the mapping is unique.  With this,
+   C13_views / C13_volatile_expr / C13_eq_same_mapping (stated with `denote_scope`) are statements about that mapping. *)
+Theorem C13_denotation_meaning : forall s, wf_scope s = true ->
+  (forall d, denote_scope s = Ok d -> is_mapping_of s (lookup d)) /\
+  (forall f, is_mapping_of s f -> exists d, denote_scope s = Ok d /\ forall x, f x = lookup d x) /\
+  (forall f f', is_mapping_of s f -> is_mapping_of s f' -> forall x, f x = f' x).
+Proof. exact p_C13_denotation_meaning. Qed.
+Print Assumptions C13_denotation_meaning.
+
+(* ... and directly for the access paths of the model: in every state reachable by any history, lookup, membership, the
+   dictionary view and items return the mapping with that property (no `denote_scope` in the statement) *)
+Theorem C13_lookup_meaning : forall s0 ops s c f,
+  exec (s0, cempty) ops = (s, c) -> wf_scope s = true -> is_mapping_of s f ->
+  (forall x, fst (get s c x) = of_opt (f x)) /\
+  (forall x, contains s x = is_some (f x)) /\
+  exists d', fst (as_dict s c) = Ok d' /\ fst (items s c) = Ok d' /\ forall x, lookup d' x = f x.
+Proof. exact p_C13_lookup_meaning. Qed.
+Print Assumptions C13_lookup_meaning.
+
+(* non-vacuity: the swap a <- b, b <- a over {a: 1, b: 2} has the mapping {a: 2, b: 1}; the reading "one entry after the
+   other in the growing dictionary" ({a: 2, b: 2}) is rejected; a name overwritten twice has the last value *)
+Example C13_denotation_meaning_nontrivial :
+  let swap := SMapped (SDict [(0%N, 1#1); (1%N, 2#1)] [0%N]) [(0%N, EVar 1%N); (1%N, EVar 0%N)] in
+  let twice := overwritten (overwritten (SDict [(0%N, 1#1); (1%N, 2#1)] [0%N]) [(0%N, 5#1)]) [(0%N, 6#1)] in
+  wf_scope swap = true /\ is_mapping_of swap (lookup [(0%N, 2#1); (1%N, 1#1)]) /\
+  ~ is_mapping_of swap (lookup [(0%N, 2#1); (1%N, 2#1)]) /\
+  wf_scope twice = true /\ (forall f, is_mapping_of twice f -> f 0%N = Some (6#1) /\ f 1%N = Some (2#1)).
+Proof. exact p_C13_denotation_meaning_nontrivial. Qed.
